@@ -125,6 +125,74 @@ def make_variant(rng, base_text, index):
     return text, {"variant": "v%d" % index, "options": opts, "extras": len(extras)}
 
 
+def decl_name(block):
+    first = block.split("\n", 1)[0]
+    m = re.match(r"- decl: (?:template<[^>]*> )?(?:class|namespace) (\w+)", first)
+    if m:
+        return m.group(1)
+    m = re.search(r"(\w+)\s*\(", first)
+    return m.group(1) if m else first
+
+
+# what a subset variant is built around: declarations that give the library exactly one (or two)
+# kinds of releasable memory
+SUBSET_RECIPES = [("arrNew",), ("arrNew", "arrNewPat"), ("strOwned",), ("vecRet",), ("Item",), ("Holder",),
+                  ("arrNewAlloc",), ("vecRetD",), ("vecAlloc",), ("Box", "makeBox"), ("strVal",), ("deep",),
+                  ("Item", "makeItem", "copyItem"), ("vecIota", "vecAlloc", "vecRet")]
+NEEDS_CLASS = {"makeItem": "Item", "borrowItem": "Item", "defaultItem": "Item", "copyItem": "Item", "useItem": "Item",
+               "sumItems": "Item", "passItem": "Item", "refItem": "Item", "makeBox": "Box"}
+# declarations that (as documented) hand nothing to the caller that needs releasing
+NEUTRAL = ["strRef", "strLib", "strIn", "charOut", "charRet", "charInout", "arrLib", "arrSum", "arrFillOut",
+           "charGrow", "charArrLen", "arrWeights", "charRetLen", "charRetNull", "strPtrIn", "vecSum", "vecDot"]
+
+
+def make_variant_subset(rng, base_text, index):
+    """Wrap only some of the declarations: the destructor table, the helper set and the order of
+    everything generated depend on *which* declarations a library has, down to a library with a
+    single kind of releasable memory."""
+    head, blocks, tail = split_decls(base_text)
+    names = [decl_name(b) for b in blocks]
+    mode = rng.random()
+    if mode < 0.6:
+        keep = set(rng.choice(SUBSET_RECIPES))
+        if rng.random() < 0.3:
+            keep |= set(rng.choice(SUBSET_RECIPES))
+        keep |= set(n for n in NEUTRAL if rng.random() < 0.35)
+    else:
+        p = rng.choice([0.15, 0.3, 0.5, 0.75])
+        keep = set(n for n in names if rng.random() < p)
+    for fn, cls in NEEDS_CLASS.items():
+        if fn in keep and cls not in keep:
+            keep.discard(fn)
+    if not keep:
+        keep = {"arrNew"}
+    kept = [b for b, n in zip(blocks, names) if n in keep]
+    classes = [b for b in kept if b.startswith(("- decl: class", "- decl: template"))]
+    funcs = [b for b in kept if not b.startswith(("- decl: class", "- decl: template"))]
+    rng.shuffle(classes)
+    rng.shuffle(funcs)
+    if "arrNewPat" not in keep:
+        tail = ""  # the patterns: section belongs to arrNewPat
+    text = head + "".join(classes + funcs) + tail
+    return text, {"variant": "s%d" % index, "subset": sorted(keep)}
+
+
+def filter_driver(text, lang, have_ops):
+    """Drop the branches of ops whose declarations this variant does not wrap."""
+    start = re.compile(r'\s*else if \(!strcmp\(op, "(\w+)"\)\)' if lang == "c" else r'\s*case \("(\w+)"\)')
+    stop = re.compile(r'\s*(#|else if \(|else printf|/\* ----)' if lang == "c" else r'\s*(#|case \(|end select)')
+    out, skipping = [], False
+    for line in text.split("\n"):
+        m = start.match(line)
+        if m:
+            skipping = m.group(1) not in have_ops
+        elif skipping and stop.match(line):
+            skipping = False
+        if not skipping:
+            out.append(line)
+    return "\n".join(out)
+
+
 # ------------------------------------------------------------------ build
 class Build(object):
     def __init__(self, workdir, yaml_text, drivers, tag, lib="simlib"):
@@ -136,6 +204,32 @@ class Build(object):
         self.ok = {}
         self.errors = {}
         self.gen_files = []
+        self.have = None  # subset variants: the wrapped declaration names
+
+    def defines(self):
+        """-D flags for the drivers: which classes / helper types / ops this build has."""
+        ops = set()
+        for d in self.drivers:
+            ops |= set(M.ops_for({"fc": "fc", "cc": "cc"}.get(d, d), self.have))
+        flags = ["-DOP_" + o for o in sorted(ops)]
+        if self.lib == "simc":
+            return flags + ["-DHAVE_ARRAY", "-DHAVE_COPYSTRING"]
+        def has(fname, word):
+            try:
+                with open(os.path.join(self.dir, fname)) as fp:
+                    return word in fp.read()
+            except OSError:
+                return False
+        for cls in ("Item", "Box", "Holder", "deep"):
+            if self.have is None or cls in self.have:
+                flags.append("-DHAVE_" + cls)
+        if has("typessimlib.h", "SIM_SHROUD_array"):
+            flags.append("-DHAVE_ARRAY")
+        if has("wrapsimlib.cpp", "SIM_ShroudCopyStringAndFree") or has("utilsimlib.cpp", "SIM_ShroudCopyStringAndFree"):
+            flags.append("-DHAVE_COPYSTRING")
+        if has("wrapfsimlib.f", "type SIM_SHROUD_capsule\n"):
+            flags.append("-DHAVE_FCAPSULE")
+        return flags
 
     def sh(self, argv, **kw):
         return subprocess.run(argv, cwd=self.dir, capture_output=True, text=True, **kw)
@@ -158,6 +252,19 @@ class Build(object):
         if p.returncode != 0:
             self.errors["generate"] = (p.stdout + p.stderr)[-1500:]
             return False
+        if self.have is not None:
+            for name, lang, drv in (("drv_c.c", "c", "c"), ("drv_f.f90", "f", "f")):
+                with open(os.path.join(self.dir, name)) as fp:
+                    src = fp.read()
+                with open(os.path.join(self.dir, name), "w") as fp:
+                    fp.write(filter_driver(src, lang, set(M.ops_for(drv, self.have))))
+            # reach: how many entries the library's release function switches over
+            try:
+                with open(os.path.join(self.dir, "wrapsimlib.cpp")) as fp:
+                    body = fp.read().split("SIM_SHROUD_memory_destructor", 1)[1]
+                self.meta_table = len(re.findall(r"^    case \d+:", body, re.M))
+            except (OSError, IndexError):
+                self.meta_table = -1
         self.gen_files = sorted(os.listdir(self.dir))
         return True
 
@@ -168,7 +275,7 @@ class Build(object):
         jobs = [(f, ["gcc"] + CFLAGS + ["-c", f, "-o", f[:-2] + ".o"]) for f in gen_c]
         jobs += [(f, ["g++"] + CXXFLAGS + ["-c", f, "-o", f[:-4] + ".o"]) for f in ("simc_impl.cpp", "simhook.cpp")]
         if "cc" in self.drivers:
-            jobs.append(("drv_c.c", ["gcc"] + CFLAGS + ["-DSIMC", "-c", "drv_c.c", "-o", "drv_c.o"]))
+            jobs.append(("drv_c.c", ["gcc"] + CFLAGS + self.defines() + ["-DSIMC", "-c", "drv_c.c", "-o", "drv_c.o"]))
         errs = {}
 
         def run(job):
@@ -190,7 +297,7 @@ class Build(object):
                     errs[f] = p.stderr[-1200:]
                     good = False
             if good:
-                p = self.sh(["gfortran"] + FFLAGS + ["-DSIMC", "-c", "drv_f.f90", "-o", "drv_f.o"], timeout=600)
+                p = self.sh(["gfortran"] + FFLAGS + self.defines() + ["-DSIMC", "-c", "drv_f.f90", "-o", "drv_f.o"], timeout=600)
                 if p.returncode != 0:
                     errs["drv_f.f90"] = p.stderr[-1200:]
                     good = False
@@ -225,7 +332,7 @@ class Build(object):
             for f in pycxx:
                 jobs.append(("py:" + f, ["g++"] + CXXFLAGS + ["-I" + py_include(), "-c", f, "-o", "py_" + f[:-4] + ".o"]))
         if "c" in self.drivers:
-            jobs.append(("drv_c.c", ["gcc"] + CFLAGS + ["-c", "drv_c.c", "-o", "drv_c.o"]))
+            jobs.append(("drv_c.c", ["gcc"] + CFLAGS + self.defines() + ["-c", "drv_c.c", "-o", "drv_c.o"]))
         errs = {}
 
         def run(job):
@@ -256,7 +363,7 @@ class Build(object):
                 errs[f] = e
                 good = False
             if good:
-                p = self.sh(["gfortran"] + FFLAGS + ["-c", "drv_f.f90", "-o", "drv_f.o"], timeout=600)
+                p = self.sh(["gfortran"] + FFLAGS + self.defines() + ["-c", "drv_f.f90", "-o", "drv_f.o"], timeout=600)
                 if p.returncode != 0:
                     errs["drv_f.f90"] = p.stderr[-1200:]
                     good = False
@@ -527,7 +634,7 @@ def run_sequence(build, driver, ops, tag, timeout=120, known=None):
 # ------------------------------------------------------------------ engine
 class C06Engine(object):
     prop = "C06"
-    TIERS = {"quick": dict(variants=3, seqs=2400, maxlen=24, selftest=24, min_budget=150, min_classes=10),
+    TIERS = {"quick": dict(variants=4, seqs=3200, maxlen=24, selftest=24, min_budget=150, min_classes=10),
              "thorough": dict(variants=40, seqs=120000, maxlen=24, selftest=120, min_budget=300, min_classes=20)}
 
     def __init__(self, args):
@@ -542,6 +649,7 @@ class C06Engine(object):
         self.t0 = time.time()
         self.known = report.load_known("C06")
         self.builds = {}
+        self._have = {}
         self.stats = {"sequences": 0, "ops": 0, "inconclusive": 0, "violating": 0, "harness_errors": 0,
                       "per_driver": {}, "op_kinds": {}, "faults": {}, "reach": {}, "inconclusive_samples": [],
                       "build_errors": {}}
@@ -563,6 +671,12 @@ class C06Engine(object):
             text, meta = make_variant_c(rng, self.base_yaml_c, index)
             d = os.path.join(campaign.scratch_dir(), "c06-v%d" % index)
             b = Build(d, text, C_DRIVERS, "v%d" % index, lib="simc")
+        elif index % 4 == 3:
+            # every fourth variant wraps only a subset of the declarations
+            text, meta = make_variant_subset(rng, self.base_yaml, index)
+            d = os.path.join(campaign.scratch_dir(), "c06-v%d" % index)
+            b = Build(d, text, ("f", "py", "c"), "v%d" % index)
+            b.have = set(meta["subset"])
         else:
             text, meta = make_variant(rng, self.base_yaml, index)
             d = os.path.join(campaign.scratch_dir(), "c06-v%d" % index)
@@ -570,6 +684,10 @@ class C06Engine(object):
         b.meta = meta
         if b.generate():
             b.compile(self.args.workers)
+        if b.have is not None:
+            b.meta["destructor_table_entries"] = getattr(b, "meta_table", -1)
+            t = "destructor_table_entries=%s" % b.meta["destructor_table_entries"]
+            self.stats["reach"][t] = self.stats["reach"].get(t, 0) + 1
         self.builds[index] = b
         for k, v in b.errors.items():
             self.stats["build_errors"]["v%d:%s" % (index, k)] = v[-400:]
@@ -578,14 +696,26 @@ class C06Engine(object):
     def sequence_spec(self, vi, driver, i):
         rng = self.seeds.rng("c06seq", vi, driver, i)
         # swarm: each sequence enables a random subset of op kinds
-        allops = M.ops_for(driver)
-        if rng.random() < 0.7:
+        have = self.variant_have(vi)
+        allops = M.ops_for(driver, have)
+        if have is not None and not allops:
+            return {"variant": vi, "driver": driver, "index": i, "ops": []}
+        if rng.random() < 0.7 and len(allops) > 4:
             enabled = rng.sample(allops, rng.randint(4, len(allops)))
         else:
             enabled = allops
         length = rng.choice([1, 2, 3, 3, 5, 8, 12, 16, self.cfg["maxlen"]])
-        ops, _ = M.gen_sequence(rng, driver, length, enabled)
+        ops, _ = M.gen_sequence(rng, driver, length, enabled, have)
         return {"variant": vi, "driver": driver, "index": i, "ops": ops}
+
+    def variant_have(self, vi):
+        """The wrapped declarations of variant vi (None = all): a function of the seed alone."""
+        if vi % 4 != 3:
+            return None
+        if vi not in self._have:
+            _, meta = make_variant_subset(self.seeds.rng("c06variant", vi), self.base_yaml, vi)
+            self._have[vi] = set(meta["subset"])
+        return self._have[vi]
 
     def execute(self, spec, tag):
         b = self.builds[spec["variant"]]
@@ -849,6 +979,8 @@ class C06Engine(object):
         d = os.path.join(campaign.scratch_dir(), "c06-replay")
         b = Build(d, rf["yaml"], [rf["driver"]], "replay", lib="simc" if rf["driver"] in C_DRIVERS else "simlib")
         b.meta = rf.get("variant_meta")
+        if (b.meta or {}).get("subset") is not None:
+            b.have = set(b.meta["subset"])
         if not b.generate() or not b.compile(self.args.workers).get(rf["driver"]):
             print("HARNESS-ERROR: build failed: %s" % json.dumps(b.errors)[:1500])
             return report.EXIT_HARNESS
